@@ -166,3 +166,20 @@ Definition check_helpers (c : (bool * Z * Z * wstate payload) * observed * bool)
       end
   | _ => false
   end.
+
+(* C09's normalize_float against the snapshot: every stored density is a fixed point of it and
+   the writers' normalisation of it is what the implementation computed (hypothesis
+   density_from_c09 of C08_convert_wf_all_linked) *)
+From T4V Require C09.Model.
+
+Definition check_density (c : (bool * Z * Z * wstate payload) * observed * bool) : bool :=
+  let '((_, _, _, w), _, _) := c in
+  forallb (fun ic =>
+             match c_density (snd ic) with
+             | None => true
+             | Some d =>
+                 match T4V.C09.Model.normalize_float d with
+                 | T4V.C09.Model.Ok n => String.eqb n (c_density_norm (snd ic)) && String.eqb n d
+                 | T4V.C09.Model.Err _ => false
+                 end
+             end) (w_cells w).
